@@ -1043,45 +1043,59 @@ theorem c19_absent_partial (hdr : List Str) (bs : List Block) (trailer : List St
 example : trailerDefines (["", "    def run(self):", "        \"\"\"run it\"\"\"", "        return 0"].map String.toList)
     "total".toList = false := by decide
 
-/-- FULL STATEMENT (no comment token ⇒ no inline text): a definition line on which the tokenizer
-    pass finds no comment has an empty inline comment. -/
-def FullStatement_inline : Prop :=
-  ∀ l : Str, lineModelled l = true → (∀ body, inlineTok l ≠ .comment body) → inlineComment l = []
+/-- FULL STATEMENT (the docstring right after a definition is its docstring below — also when
+    the definition needs several lines): continuation lines between the opening line of the
+    definition and the docstring do not matter. -/
+def tailOpenOk (tail : Str) : Bool :=
+  match runTok ⟨none, [], .ident⟩ (':' :: tail) with
+  | some s => s.inStr.isNone
+  | none => false
 
-/-- finding C19-multiline-hash: the opening line of a multi-line definition, with a `#` inside a
-    string literal and no comment: the tokenizer raises at the end of the line (open bracket), and
-    the fallback takes what follows the first `#` -/
-theorem c19_multiline_hash_witness : ¬ FullStatement_inline := by
+/-- `Block.wf` where the definition line may leave brackets open (`field(` … closed on a later line) -/
+def wfOpen (b : Block) : Bool :=
+  isIdentifier b.name && !b.tail.contains ':' && tailOpenOk b.tail
+  && b.above.all aboveOk
+  && (match b.below with
+      | .none => true
+      | .one q m => docLineOk q m && openOk q (m ++ q.tok)
+      | .multi q f r => docLineOk q f && openOk q f && r.all (docLineOk q))
+  && !b.docLooksLikeDef
+
+/-- named exclusion: the opening line of the definition leaves a bracket open -/
+def opensBracket (b : Block) : Bool := !tailOk b.tail
+
+def FullStatement_belowMultiline : Prop :=
+  ∀ (hdr : List Str) (b : Block) (conts : List Str), headerOk hdr = true → wfOpen b = true → b.gap2 = 0 →
+    (∀ l ∈ conts, containsFieldDef l = false ∧ isEmptyLine l = false) →
+    scanLines (hdr ++ (b.above.map commentLine ++ blanks b.gap1 ++ [defLine b] ++ conts
+      ++ belowLines b.below ++ blanks b.gap3)) b.name = some b.doc
+
+def multiDefBlock : Block :=
+  { above := [], gap1 := 0, name := "a".toList, tail := " int = field(default=0,".toList, inline := none,
+    gap2 := 0, below := .one .dq "below a".toList, gap3 := 0 }
+
+/-- finding C19-docstring-below-multiline: the search for the docstring starts on the line after
+    the OPENING line of the definition; the continuation line `    )` is neither blank, nor a
+    definition, nor a quote — the docstring below is not found -/
+theorem c19_below_multiline_witness : ¬ FullStatement_belowMultiline := by
   intro h
-  have he : inlineTok "    color: str = field(default=\"#fff\",".toList = .error := by decide
-  have := h "    color: str = field(default=\"#fff\",".toList (by decide) (by intro body hb; rw [he] at hb; cases hb)
+  have := h ["class C0:".toList] multiDefBlock ["    )".toList] (by decide) (by decide) rfl (by decide)
   revert this
   decide
 
-example : inlineComment "    color: str = field(default=\"#fff\",".toList = "fff\",".toList := by decide
-/-- with a real comment on the opening line the comment token is found before the error -/
-example : inlineComment "    color: str = field(default=\"#fff\",  # title bar".toList = "title bar".toList := by decide
+example : scanLines (["class C0:".toList] ++ [defLine multiDefBlock, "    )".toList, "    \"\"\"below a\"\"\"".toList])
+    "a".toList = some Doc.empty := by decide
 
-/-- named exclusion: the line opens a multi-line expression or leaves a string unterminated -/
-def opensMultiline (l : Str) : Bool := inlineTok l == .error
+example : wfOpen multiDefBlock = true ∧ opensBracket multiDefBlock = true := by decide
 
-theorem c19_inline_partial (l : Str) (hm : lineModelled l = true) (hex : opensMultiline l = false)
-    (hno : ∀ body, inlineTok l ≠ .comment body) : inlineComment l = [] := by
-  unfold inlineComment
-  by_cases hc : l.contains '#' = true
-  · simp only [hc, Bool.not_true, Bool.false_eq_true, ↓reduceIte]
-    cases ht : inlineTok l with
-    | comment body => exact absurd ht (hno body)
-    | noComment => rfl
-    | error => simp [opensMultiline, ht] at hex
-    | unmodelled =>
-      exfalso
-      have hmem : '#' ∈ l := List.contains_iff_mem.mp hc
-      simp [lineModelled, ht, hmem] at hm
-  · have hmem : '#' ∉ l := fun h => hc (List.contains_iff_mem.mpr h)
-    simp [hmem]
-
-example : opensMultiline "    x: str = \"#ff0000\"".toList = false ∧ lineModelled "    x: str = \"#ff0000\"".toList = true := by decide
+/-- partial: under the exclusion `opensBracket b = false` (that is what `Block.wf` adds to `wfOpen`)
+    there are no continuation lines and the statement is `c19_extract` -/
+theorem c19_below_multiline_partial (hdr : List Str) (b : Block) (hh : headerOk hdr = true)
+    (hw : b.wf = true) (hg : b.gap2 = 0) :
+    scanLines (hdr ++ (b.above.map commentLine ++ blanks b.gap1 ++ [defLine b] ++ ([] : List Str)
+      ++ belowLines b.below ++ blanks b.gap3)) b.name = some b.doc := by
+  have := c19_extract hdr [] [] b hh (by simpa using hw) (by simp)
+  simpa [renderBlocks, renderBlock, hg, blanks, List.append_assoc] using this
 
 /-! ### repaired findings, now full theorems -/
 
@@ -1196,6 +1210,34 @@ example : colorBlock.wf = true ∧ colorBlock2.wf = true := by decide
 example : scanLines (["class C0:".toList] ++ renderBlocks [colorBlock]) "color".toList = some Doc.empty := by decide
 example : scanLines (["class C0:".toList] ++ renderBlocks [colorBlock2]) "color".toList
     = some ⟨[], "the # real comment".toList, [], []⟩ := by decide
+
+/-- **No comment token ⇒ no inline text** (was excluded as finding C19-multiline-hash; repaired by
+    9e297b8): on every modelled definition line on which the tokenizer pass yields no comment —
+    because there is none, or because it raises at an open bracket / unterminated string — the
+    inline comment is empty.  No exclusion left. -/
+theorem c19_inline_full (l : Str) (hm : lineModelled l = true) (hno : ∀ body, inlineTok l ≠ .comment body) :
+    inlineComment l = [] := by
+  unfold inlineComment
+  by_cases hc : l.contains '#' = true
+  · simp only [hc, Bool.not_true, Bool.false_eq_true, ↓reduceIte]
+    cases ht : inlineTok l with
+    | comment body => exact absurd ht (hno body)
+    | noComment => rfl
+    | error => rfl
+    | unmodelled =>
+      exfalso
+      have hmem : '#' ∈ l := List.contains_iff_mem.mp hc
+      simp [lineModelled, ht, hmem] at hm
+  · have hmem : '#' ∉ l := fun h => hc (List.contains_iff_mem.mpr h)
+    simp [hmem]
+
+/-- regression example: the former witness under the OLD rule and under the repaired one -/
+example : inlineCommentOld "    color: str = field(default=\"#fff\",".toList = "fff\",".toList := by decide
+example : inlineComment "    color: str = field(default=\"#fff\",".toList = [] := by decide
+example : lineModelled "    color: str = field(default=\"#fff\",".toList = true ∧
+    inlineTok "    color: str = field(default=\"#fff\",".toList = .error := by decide
+/-- with a real comment on the opening line the comment token is found before the error -/
+example : inlineComment "    color: str = field(default=\"#fff\",  # title bar".toList = "title bar".toList := by decide
 
 def baseSrc : ClassSrc :=
   { source := some "@dataclass\nclass C0:\n    a: int = 0  # side\n".toList, doc := none, params := [] }
